@@ -110,6 +110,7 @@ type Decl struct {
 	Alias  bool     `json:"alias,omitempty"`  // enum: option allow_alias = true;
 	Dep    bool     `json:"dep,omitempty"`    // field / extension: [deprecated = true]
 	Grp    bool     `json:"grp,omitempty"`    // message: it is the message of a group (rendered by its field)
+	XOpt   string   `json:"xopt,omitempty"`   // message: all XR in ONE statement with options: "v" = [verification = UNVERIFIED], "vr" = that + (.a.zrep) = 7
 	Gof    int      `json:"gof,omitempty"`    // field: it is the field of the group whose message is declaration Gof
 }
 
